@@ -509,4 +509,57 @@ package agent
 //@       countIn(scripts, 0, i+1, func(sc EventScript) bool { return scriptMatches(sc, e) }) == countIn(scripts, 0, i, func(sc EventScript) bool { return scriptMatches(sc, e) })+1 })
 //@ end
 
+// ---------------------------------------------------------------- filtered member listings (C26)
+// A pattern is meant to match the whole string. The regular expression library is outside the verified code: Compile
+// and MatchString are uninterpreted, and what is trusted about them is one fact of the regexp syntax -- the expression
+// ^(?:p)$ matches a string exactly when p matches all of it (without the group, ^a|b$ parses as (^a)|(b$)). The
+// contract therefore pins the expression that is compiled for a pattern p to that form.
+//@ import "regexp"
+//@ import "fmt"
+//@ pure func wholeStringExpr(p string) string { return fmt.Sprintf("^(?:%s)$", p) }
+//@ pure func patternOK(p string) bool { _, err := regexp.Compile(wholeStringExpr(p)); return err == nil }
+//@ pure func compiledWhole(p string) *regexp.Regexp { re, _ := regexp.Compile(wholeStringExpr(p)); return re }
+//@ pure func matchesWhole(p string, s string) bool { re, _ := regexp.Compile(wholeStringExpr(p)); return re.MatchString(s) }
+//@ pure func tagValue(m serf.Member, k string) string { return ite(mapHas(m.Tags, k), mapAt(m.Tags, k), "") }
+// a member is listed when every requested tag's value (a missing tag counts as empty), the status and the name match;
+// an empty status or name pattern means "any"
+//@ pure func listed(m serf.Member, tags map[string]string, status string, name string) bool {
+//@   return forall(func(k string) bool { return mapHas(tags, k) ==> matchesWhole(mapAt(tags, k), tagValue(m, k)) }) &&
+//@     (status != "" ==> matchesWhole(status, m.Status.String())) && (name != "" ==> matchesWhole(name, m.Name))
+//@ }
+//@ pure func patternsOK(tags map[string]string, status string, name string) bool {
+//@   return forall(func(k string) bool { return mapHas(tags, k) ==> patternOK(mapAt(tags, k)) }) && patternOK(status) && patternOK(name)
+//@ }
+//@ func (i *AgentIPC) filterMembers(members []serf.Member, tags map[string]string, status string, name string) (out []serf.Member, err error)
+//@   # loops are numbered by the first source position they touch: 1 = the members loop (it carries `result`), 2 = the pattern compilation, 3 = the tag loop inside 1
+//@   requires wf: len(members) >= 0 && (nilSlice(members) || arrayAllocated(members))
+//@   ensures invalid_pattern_is_an_error [C26]: (err != nil) == !patternsOK(tags, status, name)
+//@   ensures error_means_no_list [C26]: err != nil ==> nilSlice(out)
+//@   ensures as_many_as_match [C26]: err == nil ==> len(out) == countIn(members, 0, len(members), func(m serf.Member) bool { return listed(m, tags, status, name) })
+//@   ensures exactly_the_matching_members_in_order [C26]: err == nil ==> forall(func(j int) bool { return 0 <= j && j < len(members) && listed(members[j], tags, status, name) ==>
+//@       out[countIn(members, 0, j, func(m serf.Member) bool { return listed(m, tags, status, name) })].Name == members[j].Name })
+//@   loop 2 vars tagsRe map[string]*regexp.Regexp, result []serf.Member
+//@   loop 2 invariant compiled_so_far [C26]: tagsRe != nil && len(result) == 0 && !nilSlice(result) && arrayAllocated(result) && !old(arrayAllocated(result)) &&
+//@       forall(func(k string) bool { return visited(tags, k) ==> mapHas(tags, k) && patternOK(mapAt(tags, k)) && mapHas(tagsRe, k) && same(mapAt(tagsRe, k), compiledWhole(mapAt(tags, k))) })
+//@   loop 1 vars ri=rangeindex int, tagsRe map[string]*regexp.Regexp, statusRe *regexp.Regexp, nameRe *regexp.Regexp, result []serf.Member
+//@   loop 1 invariant status_and_name_expressions [C26]: same(statusRe, compiledWhole(status)) && same(nameRe, compiledWhole(name)) && patternOK(status) && patternOK(name)
+//@   loop 1 invariant tag_expressions [C26]: tagsRe != nil && forall(func(k string) bool { return mapHas(tags, k) ==> patternOK(mapAt(tags, k)) && mapHas(tagsRe, k) && same(mapAt(tagsRe, k), compiledWhole(mapAt(tags, k))) })
+//@   loop 1 invariant kept_so_far [C26]: -1 <= ri && ri < len(members) && !nilSlice(result) && arrayAllocated(result) && !old(arrayAllocated(result)) &&
+//@       len(result) == countIn(members, 0, ri+1, func(m serf.Member) bool { return listed(m, tags, status, name) })
+//@   loop 1 invariant in_order_so_far [C26]: forall(func(j int) bool { return 0 <= j && j <= ri && listed(members[j], tags, status, name) ==>
+//@       result[countIn(members, 0, j, func(m serf.Member) bool { return listed(m, tags, status, name) })].Name == members[j].Name &&
+//@       countIn(members, 0, j+1, func(m serf.Member) bool { return listed(m, tags, status, name) }) == countIn(members, 0, j, func(m serf.Member) bool { return listed(m, tags, status, name) })+1 })
+//@   # (inside loop 1 the range index register still holds the previous index: the current member is members[ri+1])
+//@   loop 3 vars ri=rangeindex int, m serf.Member, tagsRe map[string]*regexp.Regexp, statusRe *regexp.Regexp, nameRe *regexp.Regexp, result []serf.Member
+//@   loop 3 invariant status_and_name_expressions [C26]: same(statusRe, compiledWhole(status)) && same(nameRe, compiledWhole(name)) && patternOK(status) && patternOK(name)
+//@   loop 3 invariant tag_expressions [C26]: tagsRe != nil && forall(func(k string) bool { return mapHas(tags, k) ==> patternOK(mapAt(tags, k)) && mapHas(tagsRe, k) && same(mapAt(tagsRe, k), compiledWhole(mapAt(tags, k))) })
+//@   loop 3 invariant current_member [C26]: -1 <= ri && ri+1 < len(members) && m.Name == members[ri+1].Name && same(m.Tags, members[ri+1].Tags) && m.Status == members[ri+1].Status
+//@   loop 3 invariant result_slice [C26]: !nilSlice(result) && arrayAllocated(result) && !old(arrayAllocated(result))
+//@   loop 3 invariant kept_so_far [C26]: len(result) == countIn(members, 0, ri+1, func(m serf.Member) bool { return listed(m, tags, status, name) })
+//@   loop 3 invariant in_order_so_far [C26]: forall(func(j int) bool { return 0 <= j && j <= ri && listed(members[j], tags, status, name) ==>
+//@       result[countIn(members, 0, j, func(m serf.Member) bool { return listed(m, tags, status, name) })].Name == members[j].Name &&
+//@       countIn(members, 0, j+1, func(m serf.Member) bool { return listed(m, tags, status, name) }) == countIn(members, 0, j, func(m serf.Member) bool { return listed(m, tags, status, name) })+1 })
+//@   loop 3 invariant tags_match_so_far [C26]: forall(func(k string) bool { return visited(tags, k) ==> matchesWhole(mapAt(tags, k), tagValue(m, k)) })
+//@ end
+
 // END-OF-CONTRACTS
